@@ -67,6 +67,11 @@ def content(tag: str, size: int, style: str, text: bool) -> bytes:
     n = size - len(head)
     if style == "zeros":
         body = b"a" * n
+    elif style == "shared":
+        # the same incompressible-looking text in every message: the compressor refers back into EARLIER messages,
+        # so a sender whose deflate window differs from the receiver's produces wrong bytes, not an error
+        blob = hashlib.shake_128(b"shared").digest(1500).hex().encode()
+        body = (blob * (n // len(blob) + 1))[:n]
     elif style == "pattern":
         unit = (tag + "-pattern-") .encode()
         body = (unit * (n // len(unit) + 1))[:n]
@@ -388,6 +393,32 @@ def cases(draw, concurrent: bool, override: bool = False):
     return case
 
 
+@st.composite
+def big_override_cases(draw):
+    """Large (executor-compressed) sends from several tasks with a per-message override in between, all drawing on one text."""
+    big = st.fixed_dictionaries({"kind": st.sampled_from(["text", "binary"]), "size": st.sampled_from([16385, 17000, 20000, 40000, 70000]), "style": st.just("shared")})
+    small = st.fixed_dictionaries({"kind": st.sampled_from(["text", "binary"]), "size": st.integers(8, 3000), "style": st.sampled_from(["shared", "random", "pattern"])})
+    ov = st.fixed_dictionaries({"kind": st.sampled_from(["text", "binary"]), "size": st.sampled_from([8, 100, 3000, 17000]), "style": st.sampled_from(["random", "shared"]),
+                                "override": st.sampled_from([9, 12, 15])})
+    ns = draw(st.integers(2, 4))
+    senders = []
+    for _ in range(ns):
+        senders.append(draw(st.lists(st.one_of(big, big, ov, small), min_size=1, max_size=3)))
+    case = {
+        "use_mask": draw(st.booleans()), "compress": draw(st.sampled_from([9, 10, 12, 15])), "notakeover": draw(st.sampled_from([False, False, False, True])),
+        "mask_seed": draw(st.integers(0, 5)), "decode_text": draw(st.booleans()), "limit": 2 ** 16, "senders": senders,
+        "exec_mode": draw(st.sampled_from(["submit", "complete"])), "exec_delay": draw(st.integers(0, 3)),
+        "cuts": draw(st.one_of(st.just([]), st.lists(st.integers(0, 200000), max_size=4))),
+    }
+    if draw(st.integers(0, 3)) == 0:
+        case["cancel"] = {str(draw(st.integers(0, ns - 1))): draw(st.integers(0, 12))}
+    return case
+
+
+def unit_big_override(rec: Rec, n: int, offset: int) -> None:
+    hyp.run(rec, big_override_cases(), body, n, seed_offset=offset)
+
+
 def unit_hyp(rec: Rec, n: int, offset: int, concurrent: bool, override: bool = False) -> None:
     hyp.run(rec, cases(concurrent, override), body, n, seed_offset=offset)
 
@@ -431,6 +462,8 @@ def units(tier: str, seed: int) -> list[Unit]:
     for i in range(3):
         # concurrent senders where some messages carry a per-message compress override
         us.append(Unit(f"conc-override{i}", unit_hyp, {"n": n, "offset": 300 + i, "concurrent": True, "override": True}))
+    for i in range(3):
+        us.append(Unit(f"big-override{i}", unit_big_override, {"n": n // 2, "offset": 400 + i}))
     sizes = BOUNDARY_SIZES if tier == "quick" else sorted(set(BOUNDARY_SIZES + list(range(120, 132)) + [65534, 65538, 2 ** 20, 2 ** 20 + 1]))
     for sh in range(4):
         us.append(Unit(f"grid{sh}", unit_grid, {"shard": sh, "nshards": 4, "sizes": sizes}))
